@@ -495,4 +495,3 @@ Proof.
   cbn [app length]. reflexivity.
 Qed.
 
-Print Assumptions strict_load_table.
